@@ -419,7 +419,17 @@ def gen_table(rng, big=False):
             for j in range(3, len(row)):
                 if rng.random() < 0.3:
                     row[j] = rng.choice([3.1234567e-13, -2.5e-21, 7.7e-9, 4.2e+17, -1.0e-300])
-    return dict(U=U, N=N, rows=rows, aif=aif, idx=idx)
+    # as in real libraries, the same function text can occur on several lines of all_equations (different trees, hence different
+    # tree codes, same unique): a fifth of the variants repeat the text of an earlier variant of the same unique
+    names = ['f%d(x)' % i for i in range(N)]
+    if not big:
+        first = {}
+        for i in range(N):
+            u = idx[i]
+            if u in first and rng.random() < 0.2:
+                names[i] = names[first[u]]
+            first.setdefault(u, i)
+    return dict(U=U, N=N, rows=rows, aif=aif, idx=idx, names=names)
 
 
 def combine_world(args, scratch):
@@ -440,7 +450,7 @@ def combine_world(args, scratch):
         with open('%s/unique_equations_%d.txt' % (lib, comp), 'w') as f:
             f.write(''.join('u%d(x)\n' % i for i in range(case['U'])))
         with open('%s/all_equations_%d.txt' % (lib, comp), 'w') as f:
-            f.write(''.join('f%d(x)\n' % i for i in range(case['N'])))
+            f.write(''.join(nm + '\n' for nm in case['names']))
         np.savetxt('%s/%s%d.txt' % (lib, fnprior, comp), np.array(case['aif']))
         od = '%s/%s/fitting/output/output_run' % (scratch, data_dir)
         os.makedirs(od)
